@@ -195,3 +195,87 @@ Section Linear.
         pose proof (round_up_lt (l_size e) g Hg). repeat split; auto; lia.
   Qed.
 End Linear.
+
+(* ---------- tensors declared equivalent share one address ---------- *)
+Lemma lin_find_app : forall p done x,
+  lin_find p (done ++ [x]) =
+  match lin_find p done with Some f => Some f | None => if p (fst x) then Some x else None end.
+Proof.
+  induction done as [|d r IH]; intros x; cbn [app lin_find]; [reflexivity|].
+  destruct (p (fst d)); [reflexivity | apply IH].
+Qed.
+
+Definition share_inv (done : list (lin * Z)) : Prop :=
+  (forall d, In d done -> l_lut (fst d) = 0 -> l_wcc (fst d) <> 0 ->
+     exists f, lin_find (fun x => l_wcc x =? l_wcc (fst d)) done = Some f /\ snd d = snd f) /\
+  (forall d, In d done -> l_lut (fst d) <> 0 ->
+     exists f, lin_find (fun x => l_eq x =? l_eq (fst d)) done = Some f /\ snd d = snd f).
+
+Lemma share_step : forall done total e a,
+  share_inv done -> lin_address e done total = Ok a -> share_inv (done ++ [(e, a)]).
+Proof.
+  intros done total e a [J1 J2] Ha. split.
+  - intros d Hd Hl Hw. apply in_app_or in Hd. destruct Hd as [Hd|[<-|[]]].
+    + destruct (J1 d Hd Hl Hw) as [f [Hf Hs]]. exists f. rewrite lin_find_app, Hf. auto.
+    + cbn [fst snd] in *. rewrite lin_find_app. unfold lin_address in Ha.
+      destruct (Z.eqb_spec (l_wcc e) 0); [contradiction|].
+      destruct (Z.eqb_spec (l_lut e) 0); [|contradiction].
+      destruct (lin_find (fun x => l_wcc x =? l_wcc e) done) as [f|].
+      * destruct (l_scc (fst f) =? l_scc e); [|discriminate]. inversion Ha; subst. exists f; auto.
+      * inversion Ha; subst. cbn [fst]. rewrite Z.eqb_refl. eexists; split; [reflexivity | reflexivity].
+  - intros d Hd Hl. apply in_app_or in Hd. destruct Hd as [Hd|[<-|[]]].
+    + destruct (J2 d Hd Hl) as [f [Hf Hs]]. exists f. rewrite lin_find_app, Hf. auto.
+    + cbn [fst snd] in *. rewrite lin_find_app. unfold lin_address in Ha.
+      destruct (Z.eqb_spec (l_lut e) 0); [contradiction|].
+      destruct (lin_find (fun x => l_eq x =? l_eq e) done) as [f|].
+      * exists f. split; [reflexivity|].
+        destruct (l_wcc e =? 0); [inversion Ha; reflexivity|].
+        destruct (lin_find (fun x => l_wcc x =? l_wcc e) done) as [f2|].
+        -- destruct (l_scc (fst f2) =? l_scc e); [inversion Ha; reflexivity | discriminate].
+        -- inversion Ha; reflexivity.
+      * cbn [fst]. rewrite Z.eqb_refl. exists (e, a); auto.
+Qed.
+
+Lemma linear_run_share : forall g es done total out t,
+  share_inv done -> linear_run g es done total = Ok (out, t) -> share_inv (done ++ combine es out).
+Proof.
+  intros g. induction es as [|e rest IH]; intros done total out t Hinv Hrun.
+  - cbn in Hrun. inversion Hrun; subst. cbn. rewrite app_nil_r. exact Hinv.
+  - cbn [linear_run] in Hrun.
+    destruct (lin_address e done total) as [a|c] eqn:Ea; [|discriminate].
+    destruct (linear_run g rest (done ++ [(e, a)]) _) as [[out' t']|c] eqn:Er; [|discriminate].
+    inversion Hrun; subst; clear Hrun.
+    pose proof (IH _ _ _ _ (share_step _ _ _ _ Hinv Ea) Er) as H.
+    cbn [combine]. rewrite <- app_assoc in H. exact H.
+Qed.
+
+Lemma In_combine_nth : forall (A B : Type) (l1 : list A) (l2 : list B) i x y,
+  nth_error l1 i = Some x -> nth_error l2 i = Some y -> In (x, y) (combine l1 l2).
+Proof.
+  induction l1 as [|a r IH]; intros l2 i x y H1 H2; [destruct i; discriminate|].
+  destruct l2 as [|b s]; [destruct i; discriminate|]. destruct i as [|i]; cbn in *.
+  - left. congruence.
+  - right. eapply IH; eauto.
+Qed.
+
+(* non-LUT tensors with the same weight compression config, and LUT tensors that are equivalent,
+   get the same address *)
+Lemma linear_share_lemma : forall g es addrs total i j e1 e2 a1 a2,
+  linear g es = Ok (addrs, total) ->
+  nth_error es i = Some e1 -> nth_error es j = Some e2 ->
+  nth_error addrs i = Some a1 -> nth_error addrs j = Some a2 ->
+  (l_lut e1 = 0 /\ l_lut e2 = 0 /\ l_wcc e1 <> 0 /\ l_wcc e1 = l_wcc e2) \/
+  (l_lut e1 <> 0 /\ l_lut e2 <> 0 /\ l_eq e1 = l_eq e2) ->
+  a1 = a2.
+Proof.
+  intros g es addrs total i j e1 e2 a1 a2 Hrun H1 H2 A1 A2 Hk. unfold linear in Hrun.
+  assert (Hs : share_inv ([] ++ combine es addrs)).
+  { eapply linear_run_share; [|exact Hrun]. split; intros d []. }
+  cbn [app] in Hs. destruct Hs as [J1 J2].
+  pose proof (In_combine_nth _ _ _ _ _ _ _ H1 A1) as P1. pose proof (In_combine_nth _ _ _ _ _ _ _ H2 A2) as P2.
+  destruct Hk as [(L1 & L2 & W & E)|(L1 & L2 & E)].
+  - destruct (J1 _ P1 L1 W) as [f1 [F1 S1]]. destruct (J1 _ P2 L2 ltac:(cbn; congruence)) as [f2 [F2 S2]].
+    cbn [fst snd] in *. rewrite E in F1. rewrite F1 in F2. inversion F2; subst. congruence.
+  - destruct (J2 _ P1 L1) as [f1 [F1 S1]]. destruct (J2 _ P2 L2) as [f2 [F2 S2]].
+    cbn [fst snd] in *. rewrite E in F1. rewrite F1 in F2. inversion F2; subst. congruence.
+Qed.
